@@ -124,7 +124,7 @@ pub fn run<C: Suite>(ctx: &mut Ctx) {
     let slow = C::NAME == "ed448";
     let sub_cap: usize = match (ctx.quick(), slow) {
         (true, true) => 2,
-        (true, false) => 5,
+        (true, false) => 8,
         (false, true) => 6,
         (false, false) => 24,
     };
